@@ -104,7 +104,10 @@ def ensures(v, label=None):
         _record.append(('ensures', label, _judged(v)))
 
 
-def raises(*a, **k):
+def raises(exc=None, when=None, **k):
+    """raises(Exc, when=cond): recorded with the truth value of its condition on the entry state"""
+    if _record is not None:
+        _record.append(('raises', getattr(exc, '__name__', str(exc)), None if when is None else _judged(when)))
     return None
 
 
@@ -182,7 +185,7 @@ def _clauses(fn):
             continue
         if isinstance(st, ast.Expr) and isinstance(st.value, ast.Call) and isinstance(st.value.func, ast.Name) \
                 and st.value.func.id in ('invariant', 'decreases', 'induct', 'use', 'option', 'local', 'modifies',
-                                         'exclude', 'raises'):
+                                         'exclude'):
             continue     # proof-only clauses have no native meaning
         m = ast.Module(body=[Lazy().visit(st)], type_ignores=[])
         ast.fix_missing_locations(m)
